@@ -244,7 +244,11 @@ def check_c16(tier):
                 if p in ("python", "rust") and rnd.random() > 0.5:
                     continue
             else:
-                if p == "testdata" and rnd.random() > 0.12:
+                if p == "testdata" and rnd.random() > 0.03:
+                    continue
+                if p == "dotnet" and rnd.random() > 0.1:
+                    continue
+                if p in ("python", "rust") and rnd.random() > 0.3:
                     continue
                 if invalid and rnd.random() > 0.3:
                     continue
